@@ -154,6 +154,41 @@ func programs() []Case {
 			}
 		}
 	}
+	// models implementing a SUBSET of the hooks: exactly {h}, and all but h
+	for _, h := range allHooks {
+		for _, sub := range []string{"only:" + h, "allbut:" + h} {
+			for _, op := range []string{"create", "save_new", "save_existing", "update", "updates_struct", "delete", "find", "first"} {
+				for _, sh := range []string{"ptr_struct", "ptr_slice", "slice_ptr"} {
+					n := 2
+					if sh == "ptr_struct" {
+						n = 1
+					}
+					if (op == "find" || op == "first") && sh == "slice_ptr" {
+						continue
+					}
+					if op == "first" && sh != "ptr_struct" {
+						continue
+					}
+					add(Case{Op: op, Shape: sh, Len: n, Kids: "none", Mode: "hooks", Outer: "implicit", Subset: sub})
+				}
+			}
+		}
+	}
+	// reads that iterate: FindInBatches, hook failures at every batch x record
+	for _, ls := range [][2]int{{1, 1}, {2, 1}, {3, 1}, {2, 2}, {3, 2}, {3, 3}} {
+		for _, sh := range []string{"ptr_slice", "ptr_slice_ptr"} {
+			for _, kids := range []string{"none", "both"} {
+				for _, outer := range []string{"implicit", "begin"} {
+					for _, mode := range []string{"hooks", "skiphooks"} {
+						if mode == "skiphooks" && (outer != "implicit" || sh != "ptr_slice") {
+							continue
+						}
+						add(Case{Op: "find_batches", Shape: sh, Len: ls[0], Batch: ls[1], Kids: kids, PtrKids: kids != "none" && sh == "ptr_slice_ptr", Mode: mode, Outer: outer})
+					}
+				}
+			}
+		}
+	}
 	// Save of a record whose primary key is set but whose row does not exist
 	for _, outer := range []string{"implicit", "begin"} {
 		for _, mode := range []string{"hooks", "skiphooks"} {
@@ -165,7 +200,7 @@ func programs() []Case {
 	base := append([]Case{}, out...)
 	for _, body := range []string{"handle", "session", "create_update"} {
 		for _, c := range base {
-			if c.Mode != "hooks" || c.PtrKids || c.Len < 1 || c.Len > 2 {
+			if c.Mode != "hooks" || c.PtrKids || c.Len < 1 || c.Len > 2 || c.Subset != "" || c.Op == "find_batches" {
 				continue
 			}
 			if c.Shape != "ptr_struct" && c.Shape != "ptr_slice" && c.Shape != "ptr_slice_ptr" {
@@ -192,7 +227,7 @@ func programs() []Case {
 	// and the converse: a NewDB+SkipHooks session runs none
 	for _, pre := range []string{"sess_skiphooks", "sess_skiphooks_used", "sess_newdb_skiphooks", "sess_newdb_skiphooks_used", "sess_newdb_used", "sess_newdb_context_used", "updatecolumn", "withcontext_used", "debug_used"} {
 		for _, c := range base {
-			if c.Mode != "hooks" || c.PtrKids || c.Len < 1 || c.Len > 2 || c.Graph != "" || c.Batch != 0 || c.Belongs != "" {
+			if c.Mode != "hooks" || c.PtrKids || c.Len < 1 || c.Len > 2 || c.Graph != "" || c.Batch != 0 || c.Belongs != "" || c.Subset != "" {
 				continue
 			}
 			if c.Shape != "ptr_struct" && c.Shape != "ptr_slice" {
@@ -241,6 +276,9 @@ func tags(c Case, x *mc.Exec) []string {
 	}
 	if c.Prelude != "" {
 		t = append(t, c.Op+"/prelude="+c.Prelude)
+	}
+	if c.Subset != "" {
+		t = append(t, c.Op+"/hooks="+c.Subset)
 	}
 	if c.Belongs != "" {
 		t = append(t, fmt.Sprintf("%s/belongs_to=%s/stored=%v", c.Op, c.Belongs, c.Preset))
@@ -442,7 +480,7 @@ func main() {
 	}
 
 	bound := 1
-	budget := 80 * time.Second
+	budget := 120 * time.Second // only reached on an overloaded machine (normal: 20-40 s)
 	if args.Tier == "thorough" {
 		bound = 2
 		budget = 9 * time.Minute
@@ -504,7 +542,7 @@ func main() {
 		}
 	}
 	// non-vacuity floors
-	if run.NumViolations() == 0 {
+	if run.NumViolations() == 0 && exhaustive { // a run cut short by its deadline ends with exit 0 and exhaustive:false
 		if st.withFailure < 1000 {
 			run.HarnessError("vacuous: only %d executions with a failing hook were judged", st.withFailure)
 		}
@@ -531,11 +569,12 @@ func main() {
 	run.Assume("batched creates (CreateInBatches, Session{CreateBatchSize}.Create): the phases of batch k precede those of batch k+1; the whole call must be one transaction")
 	run.Assume("Node graphs (self-referential many2many): records reached through Peers are one phase group (nodes:nested) between the root's statement and the root's after-hooks; nesting levels are not ordered against each other")
 	run.Assume("phases of different child tables (has-one vs has-many) are not ordered by the property; Delete with Select(associations) and preloaded children's addresses (temporary values, identified by primary key) are outside the identity check")
+	run.Assume("FindInBatches: every batch is read into the same destination, so records are identified by primary key; the batch function must be called exactly for the batches loaded without a hook error; Rows/ScanRows run no hooks in gorm and are not in the alphabet")
 	run.Assume("hook receivers are pointer receivers; hooks detect their execution through tx.Logger, the call chain is unchanged")
 	cov := map[string]interface{}{
 		"evaluations":                         st.executions,
 		"distinct_nontrivial":                 cx.distinct.Len(),
-		"rule":                                fmt.Sprintf("every program of {create,save(new),save(existing),save(key set, row missing),update,updates(struct),updates(map),delete,find,first} x {&T,&[]T,[]T,[]*T,&[]*T,&[N]T} x len 0..3 x children {none,has-one,has-many(2),both} (by value and by pointer) x {hooks,SkipHooks session,UpdateColumn(s)} x {gorm's own transaction, caller's transaction}; plus CreateInBatches / Session{CreateBatchSize}.Create with (len,size) in {(1,2),(2,2),(3,2),(4,2),(5,2),(4,3),(5,3)}; plus Create/Save of self-referential many2many graphs with shared pointers (chain, triangle, diamond, fan3, cycle, two roots sharing a peer, two roots + triangle; new records with and without preset keys); plus a slice of these programs (len 1-2, &T / &[]T) repeated with three hook bodies that issue 2-4 statements through one derived handle kept in a variable (write, read back, write; Session/WithContext of the handle; Create then Update); plus Create/Save of slices of 2-3 parents whose belongs-to pointers (stored or new Company with hooks) are distinct / shared by two / shared by all; plus the same slice of programs run after a handle derivation on the same handle (SkipHooks / NewDB / NewDB+SkipHooks / NewDB+Context sessions, WithContext, Debug, UpdateColumn - abandoned or used once) and inside a NewDB+SkipHooks session; each explored by E1 with a choice point at every hook invocation up to %d failing hooks; non-trivial = distinct (program, failing-hook set) executions in which at least one hook invocation was logged and the whole oracle (once per record, order relative to the driver-log statement, pool/transaction identity, error, later phases, rollback / stored values) was evaluated", bound),
+		"rule":                                fmt.Sprintf("every program of {create,save(new),save(existing),save(key set, row missing),update,updates(struct),updates(map),delete,find,first} x {&T,&[]T,[]T,[]*T,&[]*T,&[N]T} x len 0..3 x children {none,has-one,has-many(2),both} (by value and by pointer) x {hooks,SkipHooks session,UpdateColumn(s)} x {gorm's own transaction, caller's transaction}; plus CreateInBatches / Session{CreateBatchSize}.Create with (len,size) in {(1,2),(2,2),(3,2),(4,2),(5,2),(4,3),(5,3)}; plus Create/Save of self-referential many2many graphs with shared pointers (chain, triangle, diamond, fan3, cycle, two roots sharing a peer, two roots + triangle; new records with and without preset keys); plus a slice of these programs (len 1-2, &T / &[]T) repeated with three hook bodies that issue 2-4 statements through one derived handle kept in a variable (write, read back, write; Session/WithContext of the handle; Create then Update); plus Create/Save of slices of 2-3 parents whose belongs-to pointers (stored or new Company with hooks) are distinct / shared by two / shared by all; plus the same slice of programs run after a handle derivation on the same handle (SkipHooks / NewDB / NewDB+SkipHooks / NewDB+Context sessions, WithContext, Debug, UpdateColumn - abandoned or used once) and inside a NewDB+SkipHooks session; plus create/save/update/delete/find/first on 18 models that implement only a subset of the hooks (exactly {h} and all-but-h for each of the nine hooks); plus FindInBatches with (rows,size) in {(1,1),(2,1),(3,1),(2,2),(3,2),(3,3)} with and without Preload; each explored by E1 with a choice point at every hook invocation up to %d failing hooks; non-trivial = distinct (program, failing-hook set) executions in which at least one hook invocation was logged and the whole oracle (once per record, order relative to the driver-log statement, pool/transaction identity, error, later phases, rollback / stored values) was evaluated", bound),
 		"samples":                             cx.samples.List(),
 		"exhaustive":                          exhaustive,
 		"programs":                            len(progs),
